@@ -16,7 +16,7 @@ func TestGovcBoundedNip11KindRoundTrip(t *testing.T) {
 	for i := -3; i <= 40; i++ {
 		vals = append(vals, i)
 	}
-	vals = append(vals, 9999, 10000, 19999, 20000, 29999, 30000, 39999, 40000, 65535, 65536, 1<<31-1, 1<<31, -(1 << 31), 1<<53 + 1, 1<<62 + 3)
+	vals = append(vals, 9999, 10000, 19999, 20000, 29999, 30000, 39999, 40000, 65535, 65536, 1<<31-1, 1<<31, -(1 << 31), 1<<53+1, 1<<62+3)
 	n := 0
 	for _, a := range vals {
 		for _, b := range vals {
